@@ -5,7 +5,9 @@ import (
 	"sort"
 	"strings"
 
+	"gonum.org/v1/gonum/graph"
 	"gonum.org/v1/gonum/graph/formats/rdf"
+	"gonum.org/v1/gonum/graph/multi"
 	"verif/simrt"
 )
 
@@ -120,6 +122,85 @@ func runRDFGraph(c *Ctx) *Violation {
 				return viol("rdf-graph/termfor/"+stage, "%s: TermFor(%q) = (%q, %v); the term is used by the statements held: %v", stage, text, term.Value, ok, want)
 			}
 		}
+		// the multigraph view of the store: edges, lines and statements
+		// between every ordered pair of nodes
+		texts := rgSetOf(nodes)
+		total := 0
+		for _, a := range texts {
+			ta, _ := g.TermFor(a)
+			wantFrom, wantTo := map[string]bool{}, map[string]bool{}
+			for k := range model {
+				if k[0] == a {
+					wantFrom[k[2]] = true
+				}
+				if k[2] == a {
+					wantTo[k[0]] = true
+				}
+			}
+			collect := func(it graph.Nodes) []rdf.Term {
+				var ts []rdf.Term
+				for it.Next() {
+					ts = append(ts, it.Node().(rdf.Term))
+				}
+				return ts
+			}
+			if x, y := rgSetOf(wantFrom), rgTermSet(collect(g.FromSubject(ta))); strings.Join(x, " ") != strings.Join(y, " ") {
+				return viol("rdf-graph/from/"+stage, "%s: FromSubject(%s) = %v, objects of its statements: %v", stage, a, y, x)
+			}
+			if x, y := rgSetOf(wantTo), rgTermSet(collect(g.ToObject(ta))); strings.Join(x, " ") != strings.Join(y, " ") {
+				return viol("rdf-graph/to/"+stage, "%s: ToObject(%s) = %v, subjects of its statements: %v", stage, a, y, x)
+			}
+			for _, b := range texts {
+				tb, _ := g.TermFor(b)
+				want := map[rgTriple]bool{}
+				back := false
+				for k := range model {
+					if k[0] == a && k[2] == b {
+						want[k] = true
+					}
+					if k[0] == b && k[2] == a {
+						back = true
+					}
+				}
+				if got := g.HasEdgeFromTo(ta.UID, tb.UID); got != (len(want) != 0) {
+					return viol("rdf-graph/has-edge/"+stage, "%s: HasEdgeFromTo(%s, %s) = %v with %d statements from the one to the other", stage, a, b, got, len(want))
+				}
+				if got := g.HasEdgeBetween(ta.UID, tb.UID); got != (len(want) != 0 || back) {
+					return viol("rdf-graph/has-edge/"+stage, "%s: HasEdgeBetween(%s, %s) = %v; statements %s->%s: %d, %s->%s: %v", stage, a, b, got, a, b, len(want), b, a, back)
+				}
+				if e := g.Edge(ta.UID, tb.UID); (e != nil) != (len(want) != 0) {
+					return viol("rdf-graph/has-edge/"+stage, "%s: Edge(%s, %s) = %v with %d statements from the one to the other", stage, a, b, e, len(want))
+				}
+				if l := g.Lines(ta.UID, tb.UID).Len(); l != len(want) {
+					return viol("rdf-graph/lines/"+stage, "%s: Lines(%s, %s).Len() = %d with %d statements from the one to the other", stage, a, b, l, len(want))
+				}
+				gotSt := map[rgTriple]bool{}
+				sit := g.Statements(ta.UID, tb.UID)
+				cnt := 0
+				for sit.Next() {
+					gotSt[rgKey(sit.Statement())] = true
+					cnt++
+					if cnt > 1000 {
+						return viol("rdf-graph/iterator-runaway", "%s: Statements(%s, %s) does not end", stage, a, b)
+					}
+				}
+				if x, y := rgSorted(want), rgSorted(gotSt); strings.Join(x, "\n") != strings.Join(y, "\n") || cnt != len(want) {
+					return viol("rdf-graph/statements-between/"+stage, "%s: Statements(%s, %s) yields %d statements %v, the store holds %v", stage, a, b, cnt, y, x)
+				}
+				total += len(want)
+			}
+		}
+		edgeLines := 0
+		eit := g.Edges()
+		for eit.Next() {
+			ls := eit.Edge().(multi.Edge)
+			for ls.Next() {
+				edgeLines++
+			}
+		}
+		if edgeLines != len(model) || total != len(model) {
+			return viol("rdf-graph/edges/"+stage, "%s: Edges() holds %d lines, the store %d statements", stage, edgeLines, len(model))
+		}
 		// queries from every subject
 		for _, s := range rgSubjects {
 			term, ok := g.TermFor(s)
@@ -205,6 +286,85 @@ func runRDFGraph(c *Ctx) *Violation {
 			or[k] = true
 		}
 		c.Oracle("query-algebra")
+		// Has{All,Any}{Out,In} by predicate, and Repeat as reachability
+		var every []rdf.Term
+		for _, s := range append(append([]string(nil), rgSubjects...), rgObjects[5:]...) {
+			if term, ok := g.TermFor(s); ok {
+				every = append(every, term)
+			}
+		}
+		for _, p := range rgPreds {
+			p := p
+			is := func(st *rdf.Statement) bool { return st.Predicate.Value == p }
+			wAllOut, wAllIn, wAnyOut, wAnyIn := map[string]bool{}, map[string]bool{}, map[string]bool{}, map[string]bool{}
+			for _, term := range every {
+				x := term.Value
+				allOut, allIn, anyOut, anyIn := true, true, false, false
+				for k := range model {
+					if k[0] == x {
+						allOut = allOut && k[1] == p
+						anyOut = anyOut || k[1] == p
+					}
+					if k[2] == x {
+						allIn = allIn && k[1] == p
+						anyIn = anyIn || k[1] == p
+					}
+				}
+				wAllOut[x], wAllIn[x], wAnyOut[x], wAnyIn[x] = allOut, allIn, anyOut, anyIn
+			}
+			pick := func(m map[string]bool) []string {
+				var out []string
+				for k, v := range m {
+					if v {
+						out = append(out, k)
+					}
+				}
+				sort.Strings(out)
+				return out
+			}
+			q := g.Query(every...)
+			for _, x := range []struct {
+				name string
+				want map[string]bool
+				got  rdf.Query
+			}{{"HasAllOut", wAllOut, q.HasAllOut(is)}, {"HasAllIn", wAllIn, q.HasAllIn(is)}, {"HasAnyOut", wAnyOut, q.HasAnyOut(is)}, {"HasAnyIn", wAnyIn, q.HasAnyIn(is)}} {
+				if a, b := pick(x.want), rgTermSet(x.got.Result()); strings.Join(a, " ") != strings.Join(b, " ") || x.got.Len() != len(a) {
+					return viol("rdf-graph/query-has", "%s(predicate %s) over all terms = %v (Len %d), want %v", x.name, p, b, x.got.Len(), a)
+				}
+			}
+		}
+		if len(ta) > 0 {
+			// everything reachable from the first subject
+			reach := map[string]bool{}
+			front := []string{ta[0].Value}
+			for len(front) > 0 {
+				x := front[0]
+				front = front[1:]
+				for k := range model {
+					if k[0] == x && !reach[k[2]] {
+						reach[k[2]] = true
+						front = append(front, k[2])
+					}
+				}
+			}
+			seen := map[string]bool{}
+			rounds := 0
+			g.Query(ta[0]).Repeat(func(q rdf.Query) (rdf.Query, bool) {
+				rounds++
+				r := q.Out(func(*rdf.Statement) bool { return true }).Unique()
+				var fresh []rdf.Term
+				for _, x := range r.Result() {
+					if !seen[x.Value] {
+						seen[x.Value] = true
+						fresh = append(fresh, x)
+					}
+				}
+				return g.Query(fresh...), rounds < 100
+			})
+			if a, b := rgSetOf(reach), rgSetOf(seen); strings.Join(a, " ") != strings.Join(b, " ") {
+				return viol("rdf-graph/query-repeat", "Repeat(Out) from %s visits %v, reachable by the statements held: %v", ta[0].Value, b, a)
+			}
+		}
 		for _, x := range []struct {
 			name string
 			want map[string]bool
